@@ -70,9 +70,89 @@ def atomic_case(case):
     return dict(reproduced=bool(violated), violated=violated)
 
 
+def reachability_case(case):
+    """C08 (statement): after ANY sequence of container mutations a handler observing container.items.value is called
+    exactly once per change of an object that is reachable now (once per object, however often it occurs), never for one
+    that is not, and removing the last occurrence detaches it.  Random histories over a small pool with repeated objects and
+    overlapping slice assignments; the oracle is the reachable set computed from the current containers."""
+    import random
+    from traits.api import HasTraits, Int, List, Dict, Str, Instance
+    rnd = random.Random(int(case.get("seed", 0)))
+
+    class Child(HasTraits):
+        value = Int
+
+    class Root(HasTraits):
+        children = List(Instance(Child))
+        named = Dict(Str, Instance(Child))
+    violated = []
+    for expr, attr in (("children.items.value", "children"), ("children:items:value", "children"), ("named.items.value", "named")):
+        for trial in range(int(case.get("trials", 60))):
+            pool = [Child() for _ in range(3)]
+            root = Root()
+            calls = []
+            root.observe(lambda e: calls.append(e.object), expr)
+            history = []
+            try:
+                for step in range(rnd.randint(1, 6)):
+                    if attr == "children":
+                        lst = root.children
+                        op = rnd.choice(["append", "slice", "overlap", "overlap", "del", "set", "reverse", "assign", "extend"])
+                        if op == "append":
+                            lst.append(rnd.choice(pool))
+                        elif op == "extend":
+                            lst.extend([rnd.choice(pool) for _ in range(rnd.randint(0, 2))])
+                        elif op == "slice":
+                            a = rnd.randint(0, len(lst)); b = rnd.randint(a, len(lst))
+                            lst[a:b] = [rnd.choice(pool) for _ in range(rnd.randint(0, 3))]
+                        elif op == "overlap" and lst:
+                            # replace a slice by a rearrangement of its own items with other multiplicities
+                            a = rnd.randrange(len(lst)); b = rnd.randint(a + 1, len(lst))
+                            old_items = list(lst[a:b])
+                            lst[a:b] = [rnd.choice(old_items) for _ in range(rnd.randint(0, len(old_items) + 1))]
+                        elif op == "del" and lst:
+                            del lst[rnd.randrange(len(lst))]
+                        elif op == "set" and lst:
+                            lst[rnd.randrange(len(lst))] = rnd.choice(pool)
+                        elif op == "reverse":
+                            lst.reverse()
+                        elif op == "assign":
+                            root.children = [rnd.choice(pool) for _ in range(rnd.randint(0, 3))]
+                        history.append((op, [pool.index(c) for c in root.children]))
+                        reachable = set(map(id, root.children))
+                    else:
+                        d = root.named
+                        op = rnd.choice(["set", "del", "update", "assign"])
+                        if op == "set":
+                            d[rnd.choice("abc")] = rnd.choice(pool)
+                        elif op == "del" and d:
+                            del d[rnd.choice(sorted(d))]
+                        elif op == "update":
+                            d.update({k: rnd.choice(pool) for k in rnd.sample("abc", rnd.randint(0, 2))})
+                        elif op == "assign":
+                            root.named = {k: rnd.choice(pool) for k in rnd.sample("abc", rnd.randint(0, 3))}
+                        history.append((op, {k: pool.index(v) for k, v in root.named.items()}))
+                        reachable = set(map(id, root.named.values()))
+                    for c in pool:
+                        del calls[:]
+                        c.value += 1
+                        want = 1 if id(c) in reachable else 0
+                        if len(calls) != want or any(o is not c for o in calls):
+                            violated.append("%s after %r: child %d changed, handler called %d time(s), expected %d" % (
+                                expr, history, pool.index(c), len(calls), want))
+                            raise StopIteration
+            except StopIteration:
+                pass
+            except Exception as e:
+                violated.append("%s after %r: %s: %s" % (expr, history, type(e).__name__, e))
+            if len(violated) >= 3:
+                break
+    return dict(reproduced=bool(violated), violated=violated[:3])
+
+
 def main():
     case = json.loads(sys.stdin.read())
-    out = {"atomic": atomic_case}[case["family"]](case)
+    out = {"atomic": atomic_case, "reachability": reachability_case}[case["family"]](case)
     print(json.dumps(out, default=repr))
 
 
